@@ -1,8 +1,18 @@
+#[cfg(not(feature = "verif_hooks"))]
 use std::{
   cell::{Ref, RefCell, RefMut},
   ops::{Deref, DerefMut},
   rc::Rc,
   sync::{Arc, Mutex, MutexGuard},
+};
+#[cfg(feature = "verif_hooks")]
+use crate::verif_sync::{Mutex, MutexGuard};
+#[cfg(feature = "verif_hooks")]
+use std::{
+  cell::{Ref, RefCell, RefMut},
+  ops::{Deref, DerefMut},
+  rc::Rc,
+  sync::Arc,
 };
 
 pub trait RcDeref: Clone {
